@@ -61,6 +61,23 @@ def one(ctx: Ctx, cs, pname, over, core=True, derive=None):
         return
     if M == 0:
         ctx.mon('documents_without_measures')
+        # no measure at all (header only, interpretations only): the rejections the statement names still apply with M = 0
+        for a, b in ((None, 1), (None, 5), (-1, None), (-2, 0), (1, 0), (2, 1), (0, 3)):
+            ctx.ev()
+            ctx.mon('invalid_ranges')
+            ctx.mon('invalid_ranges_on_documents_without_measures')
+            opts = dict(kw)
+            if a is not None:
+                opts['from_measure'] = a
+            if b is not None:
+                opts['to_measure'] = b
+            out, err = kpx.dumps(d, **opts)
+            if err is None:
+                ctx.violation('invalid-range-accepted', f'from_measure={a} to_measure={b} with M=0 did not raise (returned {len(out)} chars)',
+                              dict(case, from_measure=a, to_measure=b))
+            elif not isinstance(err, ValueError):
+                ctx.violation('invalid-range-wrong-exception', f'from_measure={a} to_measure={b} with M=0 raised {type(err).__name__} '
+                              f'instead of ValueError: {err}', dict(case, from_measure=a, to_measure=b))
         return
     # iteration yields exactly 1..M every time: also nested, interleaved and after an abandoned iteration
     ctx.ev()
@@ -205,6 +222,9 @@ def run(ctx: Ctx):
         pname, over = MC.profiles(ctx.tier)[i % len(MC.profiles(ctx.tier))]
         one(ctx, cs, pname, over, core=True)
         i += 1
+    # documents without any measure (header + terminator, interpretations only)
+    for k_, cs in enumerate(cases(ctx, 'c07-tiny', 12 if ctx.tier == 'quick' else 40)):
+        one(ctx, cs, 'tiny', {'types': ('**kern',), 'p_sig': [0.3, 0.9][k_ % 2]}, core=True)
     # derived documents (clone / to_transposed / concat result) of core scores
     for k_, cs in enumerate(cases(ctx, 'c07-derived', n_core // 3)):
         pname, over = MC.profiles(ctx.tier)[k_ % 8]
